@@ -17,14 +17,14 @@ MANIFEST = {
                   "with sub-second part 0 or 0.5 s (thorough: whole seconds up to 2^20); "
                   "(2) all five Time constructors build (h*3600+m*60+s)*1e9+sub for every in-range component; a time built from "
                   "(h,m,s,nano) reports exactly these through hour()/minute()/second()/nanosecond() and NaiveTime->Time->NaiveTime is "
-                  "the identity for every nanosecond of the first and the last 2048 seconds of the day (thorough: the whole day in "
+                  "the identity for every nanosecond of the first, the middle (around noon) and the last 2048 seconds of the day (thorough: the whole day in "
                   "twelve 2-hour blocks); Time->NaiveTime->Time is the identity for every nanosecond of the whole day; "
                   "(3) Time +- month-free TimeDelta is exact i64 nanosecond arithmetic for every time of day, |duration| <= 86400 s "
                   "(every sub-second part, both signs) whenever the result is inside the day, and (t+d)-d = t, (t-d)+d = t; "
                   "(4) DateTime<U> +- TimeDelta with months != 0 makes exactly one chrono Months call, forward shifts add and backward "
                   "shifts subtract |months|, for every non-zero valid i32 month count (one concrete instant per unit); "
                   "counterexamples are replayed natively",
-    "level_note": "trusted: Kani's MIR->goto translation, CBMC, CaDiCaL; chrono::Duration's documented meaning (secs*1e9+nanos, "
+    "level_note": "trusted: Kani's MIR->goto translation, CBMC, CaDiCaL / Kissat (selected per harness); chrono::Duration's documented meaning (secs*1e9+nanos, "
                   "0<=nanos<1e9). DateTime +- TimeDelta, DateTime - DateTime with valid operands, month clamping and duration_trunc "
                   "go through chrono's calendar conversion and are outside this engine's claim",
 }
@@ -44,7 +44,7 @@ def check(v, tier, opts):
                     "part in {0, 0.5 s} (quick), plus whole seconds |secs| <= 2^20 (thorough)")
     v.bounds.append("Time constructors: every h<24, m<60, s<60 and every in-range milli/micro/nano part (value laws, whole day)")
     v.bounds.append("Time -> NaiveTime -> Time: every nanosecond of the whole day (twelve 2-hour blocks); Time getters and NaiveTime -> "
-                    "Time -> NaiveTime: every nanosecond of seconds-of-day 0..2048 and 84352..86400 (quick), whole day in twelve "
+                    "Time -> NaiveTime: every nanosecond of seconds-of-day 0..2048, 42176..44224 and 84352..86400 (quick), whole day in twelve "
                     "2-hour blocks (thorough) — SAT cost of the division by 1e9 grows with the number of seconds")
     v.bounds.append("Time +- TimeDelta: every time of day 0..86400 s (every ns), month-free durations with |secs| <= 86400 and every "
                     "sub-second part, asserted when the exact result lies inside the day")
